@@ -24,9 +24,10 @@ From stdpp Require Import gmap.
 From Coq Require Import NArith.
 From PV Require Import C01.FS.
 
-Definition dir := list positive.
-Definition dcontent := gmap positive file.
-Definition tree := gmap dir dcontent.
+(* notations, not definitions: the std++ map lemmas must see the gmap types syntactically *)
+Notation dir := (list positive) (only parsing).
+Notation dcontent := (gmap positive file) (only parsing).
+Notation tree := (gmap (list positive) (gmap positive file)) (only parsing).
 
 Inductive pathref := PDir (d : dir) | PFile (d : dir) (n : positive).
 Definition error := list pathref.
@@ -42,7 +43,8 @@ Definition is_err (a : oerr) : bool := match a with Some _ => true | None => fal
 
 Inductive dop := DMkdirTemp | DCreateTemp | DLstat | DEncode | DChmod | DSync | DClose | DVerify
                | DRename | DRemove | DRemoveAll | DSyncDir | DSave.
-Record devent := DEv { de_op : dop; de_p : pathref; de_q : pathref; de_res : option errno }.
+(* de_data: the bytes an encode call wrote (empty for the other calls) *)
+Record devent := DEv { de_op : dop; de_p : pathref; de_q : pathref; de_res : option errno; de_data : bytes }.
 (* dtr is in reverse order (latest call first) *)
 Record dworld := DW { wt : tree; dcnt : nat; dtr : list devent }.
 
@@ -99,13 +101,14 @@ Variable freshn : dcontent -> positive.
 Variable kpart : nat.
 
 (* mf / mn: the paths named by the error of an injected / a natural failure of this call *)
-Definition dcallm {A} (op : dop) (p q : pathref) (mf mn : error) (w : dworld)
+Definition dcalld {A} (op : dop) (p q : pathref) (mf mn : error) (dok dfault : bytes) (w : dworld)
     (f : tree -> option (tree * A)) (onfault : tree -> tree) : dout A :=
-  if pl (dcnt w) then DFail EIO mf (DW (onfault (wt w)) (S (dcnt w)) (DEv op p q (Some EIO) :: dtr w))
+  if pl (dcnt w) then DFail EIO mf (DW (onfault (wt w)) (S (dcnt w)) (DEv op p q (Some EIO) dfault :: dtr w))
   else match f (wt w) with
-       | Some (t', a) => DDone a (DW t' (S (dcnt w)) (DEv op p q None :: dtr w))
-       | None => DFail ENOENT mn (DW (wt w) (S (dcnt w)) (DEv op p q (Some ENOENT) :: dtr w))
+       | Some (t', a) => DDone a (DW t' (S (dcnt w)) (DEv op p q None dok :: dtr w))
+       | None => DFail ENOENT mn (DW (wt w) (S (dcnt w)) (DEv op p q (Some ENOENT) [] :: dtr w))
        end.
+Definition dcallm {A} (op : dop) (p q : pathref) (mf mn : error) := @dcalld A op p q mf mn [] [].
 (* os.PathError / os.LinkError name the paths of the call *)
 Definition dcall {A} (op : dop) (p q : pathref) := @dcallm A op p q [p; q] [p; q].
 
@@ -125,7 +128,7 @@ Definition lstat (d : dir) (n : positive) (w : dworld) : dout unit :=
     (fun t => match lookup_file t d n with Some _ => Some (t, tt) | None => None end) id.
 (* gob.NewEncoder(f).Encode(fd): appends data; a failing encode may leave a prefix behind *)
 Definition encode (d : dir) (n : positive) (data : bytes) (w : dworld) : dout unit :=
-  dcall DEncode (PFile d n) (PFile d n) w
+  dcalld DEncode (PFile d n) (PFile d n) [PFile d n; PFile d n] [PFile d n; PFile d n] data (firstn kpart data) w
     (fun t => match update_file d n (fun f => File (fdata f ++ data) (fmode f)) t with
               | Some t' => Some (t', tt) | None => None end)
     (fun t => match update_file d n (fun f => File (fdata f ++ firstn kpart data) (fmode f)) t with
